@@ -1,1 +1,390 @@
-//! placeholder
+//! C16: connections are safe to create and use concurrently (low-assurance sampling of
+//! schedules). Every case runs twice, each time in a freshly forked process whose ABI caches are
+//! empty: once with the thread programs executed one after another (the sequential model) and
+//! once with N real threads released together by a barrier. All results must be equal and all
+//! threads must finish. A run that exceeds the watchdog is examined through /proc before it is
+//! killed: only a *confirmed* deadlock (all threads asleep with unchanged CPU time over three
+//! samples) is a violation, anything else is inconclusive.
+
+use crate::iso::{Iso, Server};
+use crate::*;
+use abigen::script::*;
+use abigen::strat::{call_spec, CallOpts};
+use abirt::{Conn, ConnMode, Ctx, SharedConn};
+use proptest::prelude::*;
+use serde::{Deserialize, Serialize};
+
+#[derive(Clone, Debug, Serialize, Deserialize)]
+pub struct Block {
+    /// index into Case::pool
+    pub iface: usize,
+    /// use the connection shared by all threads (only for `: Send + Sync` interfaces, `&self` methods)
+    pub shared: bool,
+    pub calls: Vec<CallSpec>,
+}
+
+#[derive(Clone, Debug, Serialize, Deserialize)]
+pub struct Case {
+    /// (family index, revision index) of the interfaces used by this case
+    pub pool: Vec<(usize, usize)>,
+    /// 2^k threads, k in 1..=4
+    pub threads_log2: u32,
+    /// seed of the schedule perturbation (yield / short sleep / spin inside implementation
+    /// methods, closures and callback objects)
+    pub seed: u64,
+    /// one program per thread (the first 2^k are used)
+    pub programs: Vec<Vec<Block>>,
+}
+
+fn block_strategy(w: &World, pool: &[(usize, usize)]) -> BoxedStrategy<Block> {
+    let o = CallOpts { panic_rate: 0, force_panic: None };
+    let mut alts: Vec<BoxedStrategy<Block>> = vec![];
+    for (pi, (fi, ri)) in pool.iter().enumerate() {
+        let fam = &w.fams[*fi];
+        let all: Vec<BoxedStrategy<CallSpec>> = fam.revs[*ri].methods.iter().map(|m| call_spec(fam, *ri, *ri, &m.name, o)).collect();
+        let pi2 = pi;
+        alts.push(proptest::collection::vec(proptest::strategy::Union::new(all), 1..=4).prop_map(move |calls| Block { iface: pi2, shared: false, calls }).boxed());
+        if fam.send_sync {
+            let refs: Vec<BoxedStrategy<CallSpec>> = fam.revs[*ri].methods.iter().filter(|m| !m.mut_self).map(|m| call_spec(fam, *ri, *ri, &m.name, o)).collect();
+            if !refs.is_empty() {
+                alts.push(proptest::collection::vec(proptest::strategy::Union::new(refs), 1..=4).prop_map(move |calls| Block { iface: pi2, shared: true, calls }).boxed());
+            }
+        }
+    }
+    proptest::strategy::Union::new(alts).boxed()
+}
+
+pub fn case_strategy(w: &Arc<World>) -> BoxedStrategy<Case> {
+    let ifaces: Vec<(usize, usize)> = w.fams.iter().enumerate().flat_map(|(fi, f)| (0..f.revs.len()).map(move |ri| (fi, ri))).collect();
+    let n = ifaces.len();
+    let w2 = w.clone();
+    proptest::collection::vec(0..n, 1..=3)
+        .prop_flat_map(move |idx| {
+            let pool: Vec<(usize, usize)> = idx.iter().map(|i| ifaces[*i]).collect();
+            let blk = block_strategy(&w2, &pool);
+            (Just(pool), 1u32..=4, any::<u64>(), proptest::collection::vec(proptest::collection::vec(blk, 1..=3), 16..=16))
+        })
+        .prop_map(|(pool, threads_log2, seed, programs)| Case { pool, threads_log2, seed: seed | 1, programs })
+        .boxed()
+}
+
+#[derive(Clone, Debug, PartialEq, Eq, Serialize, Deserialize)]
+pub enum Res {
+    Created,
+    CreateFailed(String),
+    Call(RetOut),
+}
+
+#[derive(Clone, Debug, Serialize, Deserialize)]
+pub struct Obs {
+    /// per thread: results in program order
+    pub results: Vec<Vec<Res>>,
+    pub unfinished_threads: Vec<usize>,
+    pub ledger_bad: Vec<String>,
+    pub shared_create_errors: Vec<String>,
+}
+
+fn run_thread(w: &World, case: &Case, ctx: &Arc<Ctx>, shared: &[Option<Arc<dyn SharedConn>>], prog: &[Block]) -> Vec<Res> {
+    let mut out = vec![];
+    let mut conns: Vec<Box<dyn Conn>> = vec![];
+    for b in prog {
+        let (fi, ri) = case.pool[b.iface];
+        if b.shared {
+            if let Some(Some(sc)) = shared.get(b.iface) {
+                for spec in &b.calls {
+                    out.push(Res::Call(sc.call_ref(spec).unwrap_or(RetOut::Panic("harness: not a &self method".into()))));
+                }
+                continue;
+            }
+        }
+        match w.drivers[fi][ri].connect(ctx, ConnMode::Abi) {
+            Ok(mut c) => {
+                out.push(Res::Created);
+                for spec in &b.calls {
+                    out.push(Res::Call(c.call(spec)));
+                }
+                // keep connections alive until the end of the program (more cached-creation overlap)
+                conns.push(c);
+            }
+            Err(e) => out.push(Res::CreateFailed(e)),
+        }
+    }
+    drop(conns);
+    out
+}
+
+/// Executed in a freshly forked child (empty ABI caches).
+pub fn observe(w: &World, case: &Case, concurrent: bool) -> Obs {
+    let n = 1usize << case.threads_log2;
+    let ctx = Ctx::new();
+    ctx.quiet.store(true, std::sync::atomic::Ordering::Relaxed);
+    ctx.pseed.store(case.seed, std::sync::atomic::Ordering::Relaxed);
+    let mut shared_create_errors = vec![];
+    // shared connections exist before the threads start (their creation is not raced)
+    let wants_shared: Vec<bool> = (0..case.pool.len()).map(|pi| case.programs[..n].iter().flatten().any(|b| b.shared && b.iface == pi)).collect();
+    let shared: Vec<Option<Arc<dyn SharedConn>>> = case
+        .pool
+        .iter()
+        .enumerate()
+        .map(|(pi, (fi, ri))| {
+            if !wants_shared[pi] {
+                return None;
+            }
+            match w.drivers[*fi][*ri].connect_shared(&ctx, ConnMode::Abi) {
+                Some(Ok(c)) => Some(c),
+                Some(Err(e)) => {
+                    shared_create_errors.push(e);
+                    None
+                }
+                None => None,
+            }
+        })
+        .collect();
+    let mut results: Vec<Vec<Res>> = vec![vec![]; n];
+    let mut unfinished = vec![];
+    if concurrent {
+        let barrier = std::sync::Barrier::new(n);
+        std::thread::scope(|s| {
+            let handles: Vec<_> = (0..n)
+                .map(|t| {
+                    let (ctx, shared, barrier) = (&ctx, &shared, &barrier);
+                    let prog = &case.programs[t];
+                    s.spawn(move || {
+                        barrier.wait();
+                        run_thread(w, case, ctx, shared, prog)
+                    })
+                })
+                .collect();
+            for (t, h) in handles.into_iter().enumerate() {
+                match h.join() {
+                    Ok(r) => results[t] = r,
+                    Err(_) => unfinished.push(t),
+                }
+            }
+        });
+    } else {
+        for t in 0..n {
+            results[t] = run_thread(w, case, &ctx, &shared, &case.programs[t]);
+        }
+    }
+    drop(shared);
+    let ledger_bad = ctx.ledger().into_iter().filter(|t| t.drops != 1).map(|t| format!("{}:{}", t.label, t.drops)).collect();
+    Obs { results, unfinished_threads: unfinished, ledger_bad, shared_create_errors }
+}
+
+/// Examine a process that exceeded the watchdog: thread states and CPU times, three samples one
+/// second apart; gdb backtraces if ptrace is permitted.
+pub fn examine(pid: i32) -> String {
+    let sample = || -> Vec<(String, String, u64, String)> {
+        let mut v = vec![];
+        if let Ok(rd) = std::fs::read_dir(format!("/proc/{}/task", pid)) {
+            for e in rd.flatten() {
+                let tid = e.file_name().to_string_lossy().to_string();
+                let stat = std::fs::read_to_string(e.path().join("stat")).unwrap_or_default();
+                // fields after the command name (which is in parentheses)
+                let rest: Vec<&str> = stat.rsplit(')').next().unwrap_or("").split_whitespace().collect();
+                let state = rest.first().unwrap_or(&"?").to_string();
+                let cpu = rest.get(11).and_then(|x| x.parse::<u64>().ok()).unwrap_or(0) + rest.get(12).and_then(|x| x.parse::<u64>().ok()).unwrap_or(0);
+                let wchan = std::fs::read_to_string(e.path().join("wchan")).unwrap_or_default();
+                let syscall = std::fs::read_to_string(e.path().join("syscall")).unwrap_or_default();
+                v.push((tid, state, cpu, format!("wchan={} syscall={}", wchan.trim(), syscall.split_whitespace().next().unwrap_or("?"))));
+            }
+        }
+        v.sort();
+        v
+    };
+    let s1 = sample();
+    std::thread::sleep(std::time::Duration::from_secs(1));
+    let s2 = sample();
+    std::thread::sleep(std::time::Duration::from_secs(1));
+    let s3 = sample();
+    let all_asleep = !s1.is_empty() && [&s1, &s2, &s3].iter().all(|s| s.iter().all(|t| t.1 == "S"));
+    let cpu_same = s1.len() == s3.len() && s1.iter().zip(s3.iter()).all(|(a, b)| a.0 == b.0 && a.2 == b.2) && s1.iter().zip(s2.iter()).all(|(a, b)| a.2 == b.2);
+    let mut out = String::new();
+    out.push_str(if all_asleep && cpu_same { "CONFIRMED_DEADLOCK\n" } else { "NOT_CONFIRMED\n" });
+    for t in &s3 {
+        out.push_str(&format!("thread {} state {} cpu_ticks {} {}\n", t.0, t.1, t.2, t.3));
+    }
+    if let Ok(o) = std::process::Command::new("gdb").args(["-batch", "-p", &pid.to_string(), "-ex", "thread apply all bt"]).output() {
+        let txt = String::from_utf8_lossy(&o.stdout);
+        out.push_str("--- gdb ---\n");
+        out.push_str(&txt.chars().take(6000).collect::<String>());
+    } else {
+        out.push_str("--- gdb not available ---\n");
+    }
+    out
+}
+
+pub struct Runner<'a> {
+    pub w: &'a World,
+    pub durations_ms: Vec<u128>,
+}
+
+impl<'a> Runner<'a> {
+    fn watchdog_ms(&self) -> i64 {
+        let mut d = self.durations_ms.clone();
+        d.sort();
+        let median = d.get(d.len() / 2).copied().unwrap_or(0);
+        (100 * median as i64).max(20_000)
+    }
+
+    pub fn eval(&mut self, case: &Case, st: &mut Stats, counting: bool) -> Vec<Fail> {
+        let w = self.w;
+        let n = 1usize << case.threads_log2;
+        let mut fails = vec![];
+        let timeout = self.watchdog_ms();
+        let t0 = std::time::Instant::now();
+        // sequential model, in its own fresh process
+        let mut seq_srv: Server<(), Obs> = Server::new(timeout, |_, _| observe(w, case, false));
+        seq_srv.on_timeout = Some(Box::new(examine));
+        let seq = match seq_srv.call(&()) {
+            Iso::Done(o) => o,
+            Iso::TimedOut { stderr, .. } => {
+                // even one thread, executing the programs one after another, does not finish
+                let exam = seq_srv.last_examination.take().unwrap_or_default();
+                if exam.starts_with("CONFIRMED_DEADLOCK") {
+                    fails.push(fail(
+                        &[("check", "confirmed_deadlock"), ("threads", "1_sequential")],
+                        format!("the sequential execution of the thread programs did not finish within {} ms; the only thread is asleep with unchanged CPU time over 3 samples", timeout),
+                        json!({"threads": 1, "examination": exam, "stderr": stderr}),
+                    ));
+                } else {
+                    fails.push(fail(&[("check", "HARNESS_watchdog_unconfirmed")], format!("sequential execution exceeded {} ms: {}", timeout, exam.chars().take(600).collect::<String>()), json!(null)));
+                }
+                return fails;
+            }
+            other => {
+                fails.push(fail(&[("check", "HARNESS_sequential_run_failed")], format!("sequential execution of the case did not complete: {:?}", other).chars().take(800).collect(), json!(null)));
+                return fails;
+            }
+        };
+        drop(seq_srv);
+        let mut conc_srv: Server<(), Obs> = Server::new(timeout, |_, _| observe(w, case, true));
+        conc_srv.on_timeout = Some(Box::new(examine));
+        let conc = conc_srv.call(&());
+        let exam = conc_srv.last_examination.take();
+        drop(conc_srv);
+        self.durations_ms.push(t0.elapsed().as_millis());
+        let nt = format!("{}", n);
+        match conc {
+            Iso::Done(c) => {
+                if !c.unfinished_threads.is_empty() {
+                    fails.push(fail(&[("check", "HARNESS_thread_panicked")], format!("threads {:?} panicked outside the guarded calls", c.unfinished_threads), json!(null)));
+                }
+                'cmp: for t in 0..n {
+                    let (a, b) = (&seq.results[t], &c.results[t]);
+                    for k in 0..a.len().max(b.len()) {
+                        if a.get(k) != b.get(k) {
+                            let what = match (a.get(k), b.get(k)) {
+                                (Some(Res::Call(_)), Some(Res::Call(RetOut::Panic(_)))) => "call_panicked",
+                                (Some(Res::Call(_)), Some(Res::Call(_))) => "call_result_differs",
+                                (Some(Res::Created), Some(Res::CreateFailed(_))) => "creation_failed",
+                                _ => "other",
+                            };
+                            fails.push(fail(
+                                &[("check", "concurrent_result_differs"), ("what", what)],
+                                format!("thread {} op {}: sequential execution gave {:?}, concurrent execution with {} threads gave {:?}", t, k, a.get(k), n, b.get(k)),
+                                json!({"threads": n, "thread": t, "op": k}),
+                            ));
+                            break 'cmp;
+                        }
+                    }
+                }
+                if !c.ledger_bad.is_empty() && seq.ledger_bad.is_empty() {
+                    fails.push(fail(
+                        &[("check", "concurrent_drop_ledger")],
+                        format!("owned objects not dropped exactly once under concurrency: {:?}", c.ledger_bad),
+                        json!({"threads": n}),
+                    ));
+                }
+                if !seq.ledger_bad.is_empty() {
+                    fails.push(fail(&[("check", "HARNESS_sequential_ledger")], format!("{:?}", seq.ledger_bad), json!(null)));
+                }
+                if c.shared_create_errors != seq.shared_create_errors {
+                    fails.push(fail(&[("check", "HARNESS_shared_create")], format!("{:?} vs {:?}", seq.shared_create_errors, c.shared_create_errors), json!(null)));
+                }
+            }
+            Iso::Crashed { signal, exit, stderr, .. } => {
+                fails.push(fail(
+                    &[("check", "concurrent_process_crash"), ("signal", &signal.to_string())],
+                    format!("the process running {} threads died (signal {}, exit {}): {}", n, signal, exit, stderr),
+                    json!({"threads": n, "stderr": stderr}),
+                ));
+            }
+            Iso::TimedOut { stderr, .. } => {
+                let exam = exam.unwrap_or_default();
+                if exam.starts_with("CONFIRMED_DEADLOCK") {
+                    fails.push(fail(
+                        &[("check", "confirmed_deadlock"), ("threads", &nt)],
+                        format!("{} threads did not finish within {} ms (the sequential execution took {} ms); all threads asleep with unchanged CPU time over 3 samples", n, timeout, t0.elapsed().as_millis()),
+                        json!({"threads": n, "examination": exam, "stderr": stderr}),
+                    ));
+                } else {
+                    fails.push(fail(
+                        &[("check", "HARNESS_watchdog_unconfirmed")],
+                        format!("{} threads did not finish within {} ms but a deadlock could not be confirmed: {}", n, timeout, exam.chars().take(600).collect::<String>()),
+                        json!(null),
+                    ));
+                }
+            }
+            Iso::Harness(e) => fails.push(fail(&[("check", "HARNESS_isolation")], e, json!(null))),
+        }
+        if counting {
+            st.evaluations += 1;
+            st.class(&format!("threads.{:02}", n));
+            let progs = &case.programs[..n];
+            let calls: usize = progs.iter().flatten().map(|b| b.calls.len()).sum();
+            st.class_n("calls", calls as u64);
+            st.class_n("connections_created_in_threads", progs.iter().flatten().filter(|b| !b.shared).count() as u64);
+            st.class_n("blocks_on_shared_connection", progs.iter().flatten().filter(|b| b.shared).count() as u64);
+            let cb_calls = progs
+                .iter()
+                .flatten()
+                .flat_map(|b| b.calls.iter().map(move |c| (b.iface, c)))
+                .filter(|(pi, c)| {
+                    let (fi, ri) = case.pool[*pi];
+                    w.fams[fi].revs[ri].method(&c.method).map_or(false, |(_, m)| m.args.iter().any(|a| a.kind.is_callback()) || !m.ret.is_data())
+                })
+                .count();
+            st.class_n("calls_that_create_nested_connections", cb_calls as u64);
+            // non-trivial: >= 2 threads start by creating a connection for the same interface
+            let mut firsts: BTreeMap<usize, usize> = BTreeMap::new();
+            for p in progs {
+                if let Some(b) = p.first() {
+                    if !b.shared {
+                        *firsts.entry(b.iface).or_insert(0) += 1;
+                    }
+                }
+            }
+            let distinct_ifaces: BTreeSet<(usize, usize)> = case.pool.iter().cloned().collect();
+            st.class(&format!("distinct_interfaces.{}", distinct_ifaces.len()));
+            if firsts.values().any(|c| *c >= 2) {
+                st.class("first_use_race.same_interface");
+                st.nontrivial.insert(vcore::rng::fnv64(format!("{:?}", case).as_bytes()));
+            }
+            if firsts.len() >= 2 {
+                st.class("first_use_race.different_interfaces");
+            }
+            if st.samples.is_empty() {
+                st.sample(json!({
+                    "threads": n,
+                    "perturbation_seed": case.seed,
+                    "interfaces": case.pool.iter().map(|(fi, ri)| w.fams[*fi].path(*ri)).collect::<Vec<_>>(),
+                    "thread_programs": progs.iter().map(|p| p.iter().map(|b| format!("{} {}: {}", if b.shared { "shared connection of" } else { "create connection for" }, w.fams[case.pool[b.iface].0].path(case.pool[b.iface].1), b.calls.iter().map(|c| c.method.clone()).collect::<Vec<_>>().join(", "))).collect::<Vec<_>>()).collect::<Vec<_>>(),
+                    "sequential_results_thread0": seq.results[0].iter().map(|r| format!("{:?}", r).chars().take(120).collect::<String>()).collect::<Vec<_>>(),
+                }));
+            }
+        }
+        fails
+    }
+}
+
+pub fn replay_value(w: &World, case: &Case, f: &Fail) -> Value {
+    json!({
+        "kind": "C16",
+        "interfaces": case.pool.iter().map(|(fi, ri)| render_rev(&w.fams[*fi], *ri)).collect::<Vec<_>>(),
+        "c16case": case,
+        "failure": f.detail,
+        "observed": f.extra,
+    })
+}
